@@ -554,7 +554,7 @@ func (x *ExprEnv) call(n *ast.CallExpr) tval {
 				name := "IM_" + astIfaceKey(b.typ) + "_" + fo.Name() + "_0"
 				if nt, ok := b.typ.(*types.Named); ok && nt.Obj().Pkg() != nil && e.w.mine[nt.Obj().Pkg()] && !e.w.pureIfaceMethod(b.typ, fo) && e.w.readerIfaceMethod(b.typ, fo) {
 					name = "IMR_" + typeKey(b.typ) + "_" + fo.Name() + "_0"
-					told, gate := e.heapTokens(x.st, args, ats)
+					told, gate := e.heapTokensH(x.st, args, ats, e.readHeapsIface(b.typ, fo))
 					args = append(args, told, gate)
 					ats = append(ats, types.Typ[types.Int], types.Typ[types.Int])
 				}
